@@ -118,6 +118,10 @@ func verifC16Text(x string, entry int, full int) {
 		}
 		y = x[:t.Pos] + string(raw) + x[t.End:]
 	}
+	if !verifSameTokens(x, y) {
+		verifReach("C16/not-a-respelling")
+		return
+	}
 	n, _, err := verifParse(entry, y)
 	if err != nil {
 		verifFail("C16/respelling-rejected", mode)
